@@ -9,6 +9,7 @@ import (
 	"errors"
 	"fmt"
 	"io"
+	"math"
 	"net/http"
 	"reflect"
 	"sort"
@@ -117,6 +118,28 @@ func verdict(err error) string {
 	}
 	sort.Strings(parts)
 	return "reject[" + strings.Join(parts, ",") + "]"
+}
+
+// floats puts the floats JSON cannot express where the value names them.
+func floats(v any) any {
+	switch x := v.(type) {
+	case string:
+		switch x {
+		case "NaN!":
+			return math.NaN()
+		case "Inf!":
+			return math.Inf(1)
+		}
+	case []any:
+		for i := range x {
+			x[i] = floats(x[i])
+		}
+	case map[string]any:
+		for k := range x {
+			x[k] = floats(x[k])
+		}
+	}
+	return v
 }
 
 func digest(parts ...string) string {
@@ -335,6 +358,7 @@ func (o Op) Exec(sh *Shared, marker string) (out string) {
 		if err := json.Unmarshal([]byte(o.Value), &v); err != nil {
 			return "bad-value"
 		}
+		v = floats(v)
 		if o.Kind == "match" {
 			return fmt.Sprintf("match=%v", ref.Value.IsMatching(v))
 		}
